@@ -19,6 +19,7 @@ import (
 
 	"github.com/biogo/hts/bam"
 	"github.com/biogo/hts/bgzf"
+	"github.com/biogo/hts/bgzf/cache"
 	"github.com/biogo/hts/bgzf/index"
 	"github.com/biogo/hts/cram"
 	"github.com/biogo/hts/csi"
@@ -40,6 +41,8 @@ type c11case struct {
 	H    string `json:"h"`    // SAM header text for ops that take one, hex
 	Omit int    `json:"omit"` // bam.Reader.Omit
 	Rd   int    `json:"rd"`   // bgzf read concurrency
+	Ops  [][]int64 `json:"ops"`  // bgzfops: [0, file, block] = Seek, [1, n] = Read of n bytes
+	Cache int   `json:"cache"` // bgzfops: 0 none, 1 LRU(2), 2 FIFO(2), 3 Random(2)
 	N    int    `json:"n"`    // small integer parameter (sequence length for IsValid, ...)
 }
 
@@ -413,6 +416,49 @@ func c11run(c *c11case, x []byte) map[string]interface{} {
 		o["containers"], o["blocks"], o["kinds"] = nc, nb, kinds
 		o["final"] = c11cls(r.Err())
 		o["err"] = c11errs(r.Err())
+	case "bgzfops":
+		// a short history of Seek / Read calls on one reader over a seekable source; every call is
+		// observed on its own (value / error / panic / hang); the history ends at the first panic or hang
+		rd := c.Rd
+		if rd == 0 {
+			rd = 1
+		}
+		r, err := bgzf.NewReader(bytes.NewReader(x), rd)
+		o["cls"], o["err"] = c11cls(err), c11errs(err)
+		if err != nil {
+			break
+		}
+		defer r.Close()
+		switch c.Cache {
+		case 1:
+			r.SetCache(cache.NewLRU(2))
+		case 2:
+			r.SetCache(cache.NewFIFO(2))
+		case 3:
+			r.SetCache(cache.NewRandom(2))
+		}
+		var calls []string
+		for k, op := range c.Ops {
+			op := op
+			var res string
+			name := fmt.Sprintf("call%d", k)
+			ok := c11try(&posts, name, func() {
+				if op[0] == 0 {
+					e := r.Seek(bgzf.Offset{File: op[1], Block: uint16(op[2])})
+					res = "seek:" + c11cls(e)
+				} else {
+					buf := make([]byte, op[1])
+					n, e := io.ReadFull(r, buf)
+					res = fmt.Sprintf("read:%s:%d", c11cls(e), n)
+				}
+			})
+			if !ok {
+				calls = append(calls, posts[len(posts)-1].R)
+				break
+			}
+			calls = append(calls, res)
+		}
+		o["calls"] = calls
 	case "itf8slice":
 		// errorReader.itf8slice through the verif hook of package cram
 		vs, err := cram.VerifReadITF8Slice(bytes.NewReader(x))
